@@ -285,6 +285,8 @@ def run_jit_rules(res, ast, which):
         rule_branches(res, ast, model)
     if "MC-ADDR" in which:
         rule_mc_addr(res, ast, model)
+    if "SHIM-EFFECT" in which:
+        rule_shim_effect(res, ast)
     if "REG-COUNT" in which:
         rule_reg_count(res, ast)
 
@@ -1019,3 +1021,99 @@ def rule_reg_count(res, ast):
                   "can_use_as_scratch must agree with the register table: " + "; ".join(bad_[:2]))
     except Missing as m:
         res.missing("REG-COUNT", m)
+
+
+def rule_shim_effect(res, ast):
+    """the three runtime functions the machine code calls, evaluated (lib/receval.py) on the outcome classes of the context call they wrap"""
+    import receval
+    from receval import Rec
+    from rusteval import Env as _Env, ReturnEx as _Ret, Unanalysable as _Un, Reached as _Re, NONE as _NONE, Some as _Some, UNIT as _UNIT
+    res.rule("SHIM-EFFECT", "hpbf_context_input stores C::from_u8(byte) into the whole cell *dst and returns false when the context delivers a byte, stores nothing and "
+             "returns true otherwise; hpbf_context_output hands value.into_u8() to the context once and returns true exactly when the context reports failure; "
+             "hpbf_context_extend forwards (min, max) to Memory::make_accessible", floor=5, what="shim x outcome scenarios")
+
+    class Obj:
+        def __init__(self, name):
+            self.name = name
+
+        def __repr__(self):
+            return self.name
+
+    def run(fname, scenario):
+        fn = ast.fn(BASEJIT, fname)["node"]
+        log = []
+        CXT, MEMO, VAL, BYTE, PTR = Obj("cxt"), Obj("cxt.memory"), Obj("value"), Obj("byte"), Obj("dst-pointer")
+
+        class SI(receval.RecInterp):
+            def field(self, base, member, node):
+                if base is CXT and member == "memory":
+                    return MEMO
+                return super().field(base, member, node)
+
+            def method(self, recv, name, targs, args, node):
+                if recv is CXT and name == "input" and not args:
+                    log.append(("input",))
+                    return _Some(BYTE) if scenario == "some" else _NONE
+                if recv is CXT and name == "output" and len(args) == 1:
+                    log.append(("output", args[0]))
+                    return _Some(_UNIT) if scenario == "some" else _NONE
+                if recv is MEMO and name == "make_accessible":
+                    log.append(("make_accessible",) + tuple(args))
+                    return _UNIT
+                if recv is VAL and name == "into_u8" and not args:
+                    return ("low byte of", VAL)
+                return super().method(recv, name, targs, args, node)
+            def assign_place(self, place, value, env, node):
+                pl = strip_paren(place)
+                if pl["t"] == "Unary" and pl["op"] == "*" and strip_paren(pl["expr"])["t"] == "Cast":
+                    raise _Re(f"the store goes through `{ast.src1(BASEJIT, strip_paren(pl['expr']))}`: not the whole cell is written", node)
+                return super().assign_place(place, value, env, node)
+        it = SI(ast, BASEJIT, Rec(), scripted={"C::from_u8": lambda it_, v_: ("cell from byte", v_)})
+        ps = [p_["pat"]["name"] for p_ in fn["sig"]["inputs"] if p_["t"] == "Arg" and p_["pat"]["t"] == "PIdent"]
+        env = _Env()
+        vals = {"hpbf_context_input": [CXT, PTR], "hpbf_context_output": [CXT, VAL], "hpbf_context_extend": [CXT, -5, 9]}[fname]
+        if len(ps) != len(vals):
+            raise _Un(f"{fname}: unexpected parameters")
+        for n_, v_ in zip(ps, vals):
+            env.bind(n_, v_)
+        try:
+            r = it.exec_block(fn["body"], env)
+        except _Ret as r_:
+            r = r_.value
+        return r, log, (env.get(ps[1]) if len(ps) > 1 else None), PTR, BYTE, VAL
+    for fname, scenario in (("hpbf_context_input", "some"), ("hpbf_context_input", "none"), ("hpbf_context_output", "some"), ("hpbf_context_output", "none"),
+                            ("hpbf_context_extend", "-")):
+        probs = []
+        try:
+            r, log, second, PTR, BYTE, VAL = run(fname, scenario)
+            if fname == "hpbf_context_input":
+                if log != [("input",)]:
+                    probs.append(f"the context is asked {len(log)} times")
+                elif scenario == "some":
+                    if second != ("cell from byte", BYTE):
+                        probs.append(f"*dst receives {second!r}, it must receive C::from_u8(byte) - the whole cell" if second is not PTR else "nothing is stored to *dst")
+                    if r is not False:
+                        probs.append(f"returns {r!r} after a successful read, the machine code treats true as failure")
+                else:
+                    if second is not PTR:
+                        probs.append("a value is stored although no byte was delivered")
+                    if r is not True:
+                        probs.append(f"returns {r!r} when the context delivers nothing: the failure is swallowed")
+            elif fname == "hpbf_context_output":
+                if log != [("output", ("low byte of", VAL))]:
+                    probs.append(f"the context receives {log!r}, expected one output of value.into_u8()")
+                if r is not (scenario == "none"):
+                    probs.append(f"returns {r!r} when the context reports {'success' if scenario == 'some' else 'failure'}")
+            else:
+                if log != [("make_accessible", -5, 9)]:
+                    probs.append(f"forwards {log!r}, expected make_accessible(min, max)")
+        except Missing as m_:
+            probs.append(f"anchor missing (fail closed): {m_}")
+        except (_Un, _Re, KeyError, TypeError, IndexError, AttributeError) as u_:
+            probs.append(f"cannot be analysed (fail closed): {u_}")
+        res.evaluations += 1
+        try:
+            w_ = where(BASEJIT, ast.fn(BASEJIT, fname)["node"], fname)
+        except Missing:
+            w_ = BASEJIT
+        res.check(not probs, "SHIM-EFFECT", f"{BASEJIT}|{fname}|{scenario}", w_, f"{fname} ({'byte delivered / accepted' if scenario == 'some' else 'nothing delivered / refused' if scenario == 'none' else 'forwarding'}): " + "; ".join(probs[:2]))
